@@ -73,7 +73,7 @@ func runC07(c *eng.Ctx) {
 		}
 		// the loop that registers sequences is not skippable: commit is dominated by the range over sequences
 		var rng ssa.Instruction
-		for _, b := range f.Blocks {
+		for _, b := range eng.BlocksT(f) {
 			for _, in := range b.Instrs {
 				if r, ok := in.(*ssa.Range); ok && r.X == ssa.Value(f.Params[1]) && rng == nil {
 					rng = in
@@ -238,7 +238,7 @@ func runC07(c *eng.Ctx) {
 		c.Check(ok, "freeze-atomic", clearMut, f, "immutable := mutable and mutable := nil are one critical section", why)
 		// capture of f.seq in the same hold
 		var capLoad []ssa.Instruction
-		for _, b := range f.Blocks {
+		for _, b := range eng.BlocksT(f) {
 			for _, in := range b.Instrs {
 				if r, ok := in.(*ssa.Range); ok && strings.HasSuffix(p.Desc(r.X), "f.seq") {
 					capLoad = append(capLoad, in)
